@@ -459,13 +459,13 @@ fn main() {
     // (nodes, client ops, op subset, depth)
     let all_ops: Vec<usize> = (0..OPS.len()).collect();
     let core_ops: Vec<usize> = vec![0, 1, 2, 4, 6, 9, 11, 13];
-    // a configuration whose op list is the full one also gets the restart-and-resync event
     let configs: Vec<(usize, usize, Vec<usize>, usize)> = if thorough {
         // last configuration: 4 client writes over {HSET one field, HINCRBY another, DEL}: a delta can meet a register of
         // the other type whose stamp lies between two hash writes of one node
         vec![(2, 3, all_ops.clone(), 9), (3, 2, all_ops.clone(), 8), (3, 3, core_ops.clone(), 9), (2, 4, vec![11, 14, 6], 8)]
     } else {
-        vec![(2, 2, all_ops.clone(), 7), (2, 3, core_ops.clone(), 6)]
+        // the third configuration (8 core operations) is the one that carries the restart-and-resync event in the quick tier
+        vec![(2, 2, all_ops.clone(), 7), (2, 3, core_ops.clone(), 6), (2, 2, core_ops.clone(), 7)]
     };
     if let Some(path) = &args.replay {
         let r = vh::report::load_replay(path);
@@ -558,7 +558,7 @@ fn main() {
     let (mut states, mut transitions) = (0u64, 0u64);
     let mut exhaustive = true;
     for (nodes, max_ops, ops, depth) in &configs {
-        let with_restart = thorough || ops.len() == OPS.len();
+        let with_restart = thorough || (ops.len() == core_ops.len() && *max_ops == 2);
         let alpha = alphabet(*nodes, ops, with_restart);
         let mut bfs = Bfs::new(alpha.len(), *depth);
         bfs.deadline = Some(Instant::now() + Duration::from_secs(if thorough { 900 } else { 120 }));
